@@ -1322,7 +1322,7 @@ def render2(g, bits, header=None, allow_bare=True):
         out.append(p_)
         if i + 1 < len(parts):
             # python sections and class definitions must end their line
-            after_block = p_.startswith('```')
+            after_block = p_.startswith('```') or (i == 0 and hdr)     # header and python sections end their line
             out.append(['\n', '\n\n', ' # trailing comment\n', ';', ' ;\n', '\n# own line\n'][st.pick(6) if not after_block else st.pick(3)])
     out.append(['\n', '', '\n\n', ' # done'][st.pick(4)])
     return ''.join(out)
